@@ -49,8 +49,12 @@ def gen_box(rng, d, degenerate_ok=False):
 def gen_polytope(rng, d, ncons):
   """Box + constraints (each with >= 2 non-zero weights) around a known strictly interior point x*."""
   box = gen_box(rng, d)
+  style = rng.choice(["random", "random", "slab", "parallel", "corner", "wide"])
+  if style == "wide":
+    # one very wide parameter: its (non-zero!) constraint weights are of order 1/width, i.e. below 1e-8
+    i0 = rng.randrange(d)
+    box[i0] = [0.0, float(round(10 ** rng.uniform(7.3, 8.3)))]
   w = [h - l for l, h in box]
-  style = rng.choice(["random", "random", "slab", "parallel", "corner"])
   if style == "corner":
     xs = [l + rng.uniform(0.03, 0.07) * wi for (l, _h), wi in zip(box, w)]
   else:
@@ -58,7 +62,7 @@ def gen_polytope(rng, d, ncons):
   cons = []
 
   def rand_w():
-    S = 10 ** rng.uniform(-2, 2)
+    S = 1.0 if style == "wide" else 10 ** rng.uniform(-2, 2)
     ww = [rng.choice([-1, 1]) * rng.uniform(0.2, 1) / w[i] * S if rng.random() < 0.7 else 0.0 for i in range(d)]
     nz = [i for i in range(d) if ww[i] != 0]
     while len(nz) < 2:
@@ -974,8 +978,11 @@ def check_interior(ctx, case):
       continue
     rw = ctx.driver.call({"op": "cheby", "rows": rows_json, "c": frl([float(x) for x in wx]), "r": fr(wlow)})
     if rw.get("ok"):
+      widths = [h - l for l, h in case["box"] if h > l]
+      badly_scaled = bool(widths) and max(widths) / min(widths) >= 1e8
       ctx.violation("C08 find_interior_point: reported radius is not maximal (a larger inscribed ball exists)",
-                    {"case": case, "radius": radius, "witness": name, "witness_centre": [float(x) for x in wx], "witness_radius": wlow})
+                    {"case": case, "radius": radius, "witness": name, "witness_centre": [float(x) for x in wx], "witness_radius": wlow},
+                    signature="interior-nonmaximal-badly-scaled (bound widths span >= 1e8)" if badly_scaled else None)
       return False
   cert = dual_certificate(rows, norms, d, own[2] if own is not None else None)
   if cert is None:
@@ -1124,6 +1131,9 @@ def _sample(case):
 
 
 CORPUS = [
+  # F16 (known finding): badly scaled set, HiGHS interior point stops ~20% short of the maximal radius
+  {"kind": "interior", "box": [[-0.004389761103587496, -0.001680724138242704], [-0.004510542002256968, -0.002548601384412726], [0.0, 40743551.0]], "cons": [{"w": [-165.96197853461294, -271.9916334612964, -1.0497501850820628e-08], "rhs": 0.9775831063113845}, {"w": [124.65475514297076, 0.0, 1.3154084495960551e-08], "rhs": -0.05450418886731935}, {"w": [273.83786212675363, 0.0, 1.2649565577135698e-08], "rhs": -0.44158414570723115}, {"w": [108.95544024433963, -353.8068191417619, -2.415847277694769e-08], "rhs": -0.04113923813137177}], "mode": "feasible", "rho": 0.0004031730566169991, "via_domain": False, "xs_hint": [-0.0026156154977017287, -0.003846263645023263, 30441714.055077992]},
+
   # triangle in the unit square, far-outside point, point on the face, strictly interior point
   {"kind": "restrict", "box": [[0.0, 1.0], [0.0, 1.0]], "cons": [{"w": [-1.0, -1.0], "rhs": -1.0}], "rho": 0.2, "style": "corpus",
    "pts": [[5.0, 7.0], [0.5, 0.5], [0.25, 0.25], [1.0, 1.0], [-3.0, 0.2]], "viable": None, "viable_kind": "none", "onC": True, "npseed": 1, "fixed": None},
